@@ -243,7 +243,7 @@ impl Prop for C09 {
     }
     fn build(&self, ch: &mut Chooser, cx: &mut CaseCtx) -> C09Case {
         let thorough = cx.env.tier == Tier::Thorough;
-        let o = WsGenOpts { fail_chance: 2, max_patches: if thorough { 12 } else { 6 }, max_files: 5, alt_name_chance: 2, ..Default::default() };
+        let o = WsGenOpts { fail_chance: 3, max_patches: if thorough { 12 } else { 6 }, max_files: 5, alt_name_chance: 2, ..Default::default() };
         let ws = gen_ws(ch, cx, &o);
         let n = ws.metas.len();
         let goal = if ch.chance(1, 2) { n } else { ch.range(1, n) };
@@ -558,7 +558,7 @@ impl Prop for C14 {
     }
     fn build(&self, ch: &mut Chooser, cx: &mut CaseCtx) -> C14Case {
         let thorough = cx.env.tier == Tier::Thorough;
-        let o = WsGenOpts { fail_chance: 4, max_patches: if thorough { 10 } else { 5 }, ..Default::default() };
+        let o = WsGenOpts { fail_chance: 4, max_patches: if thorough { 10 } else { 5 }, allow_hard_error: true, second_failure: true, ..Default::default() };
         let mut ws = gen_ws(ch, cx, &o);
         // sometimes a zero-length patch file
         if ch.chance(1, 6) {
@@ -618,11 +618,20 @@ impl Prop for C14 {
         };
         let base = run(&["-q".to_string()], cx);
         if base.out.exit == Exit::Timeout {
+            // does the default verbosity finish? then -q changes the outcome (it spins)
+            let other = run(&[], cx);
+            if base.out.cpu_s >= 10.0 && other.out.exit != Exit::Timeout {
+                return Verdict::FailNoShrink(format!("the push spins with -q ({:.0} CPU-seconds, killed by the watchdog) but finishes with exit {:?} at default verbosity", base.out.cpu_s, other.out.exit));
+            }
             return Verdict::Inconclusive("watchdog".into());
         }
         for v in &case.variants {
             let o = run(v, cx);
             if o.out.exit == Exit::Timeout {
+                // the base run finished: an option set that makes the tool spin is a changed outcome
+                if o.out.cpu_s >= 10.0 {
+                    return Verdict::FailNoShrink(format!("options {:?} make the push spin ({:.0} CPU-seconds, killed by the watchdog) while it finishes with -q: exit {:?}", v, o.out.cpu_s, base.out.exit));
+                }
                 return Verdict::Inconclusive("watchdog".into());
             }
             let loader_or_verbosity = v.iter().any(|s| s == "--mmap" || s.starts_with("-v")) || !v.iter().any(|s| s == "-q");
@@ -796,55 +805,72 @@ impl Prop for C15 {
         // unlinking a file in it fails while the file itself stays writable: the file must then NOT be
         // rewritten in place (its hard-linked twin keeps its content) and the push must fail
         if case.prior % 2 == 0 {
-            // files the run changes (per the model), existing at the start, in a sub-directory, owner-writable
-            let exp = expectation(ws, &case.opts, 0);
-            let end = &ws.states[exp.applied];
-            let victims: Vec<&String> = ws
-                .spec
-                .tree
-                .files
-                .iter()
-                .filter(|(p, f)| p.contains('/') && f.mode & 0o200 != 0 && end.files.get(*p).map_or(false, |g| g.data != f.data))
-                .map(|(p, _)| p)
-                .collect();
-            if let Some(victim) = victims.first() {
-                let dir = &victim[..victim.rfind('/').unwrap()];
-                let base = cx.env.fresh_dir("c15u-");
-                let root = base.join("work");
-                let twin = base.join("twin");
-                ws.spec.materialise(&root);
-                ws::link_tree(&root, &twin);
-                ws::chown_tree(&base, 65534);
-                let _ = std::fs::set_permissions(&base, std::os::unix::fs::PermissionsExt::from_mode(0o777));
-                let dpath = root.join(dir);
-                let _ = std::fs::set_permissions(&dpath, std::os::unix::fs::PermissionsExt::from_mode(0o555));
-                let twin_before = ws::snapshot(&twin);
-                let obs = push(cx, &root, &case.opts, &ws::RunOpts { uid: Some(65534), ..Default::default() });
-                let twin_after = ws::snapshot(&twin);
-                let _ = std::fs::set_permissions(&dpath, std::os::unix::fs::PermissionsExt::from_mode(0o755));
-                ws::rm_rf(&base);
+            if let Some(r) = readonly_dir_phase(ws, &case.opts, cx) {
                 cx.label("unprivileged-readonly-dir-phase");
-                if obs.out.exit == Exit::Timeout {
+                if r.obs.out.exit == Exit::Timeout {
                     return Verdict::Inconclusive("watchdog".into());
                 }
-                for (p, e) in &twin_before {
+                for (p, e) in &r.twin_before {
                     if e.kind != 'f' {
                         continue;
                     }
-                    if let Some(f) = twin_after.get(p) {
+                    if let Some(f) = r.twin_after.get(p) {
                         if f.bytes != e.bytes {
-                            return Verdict::Fail(format!("unlink failed (read-only directory {:?}) and the file was then rewritten IN PLACE: hard-linked twin {:?} changed; exit {:?}", dir, String::from_utf8_lossy(p), obs.out.exit));
+                            return Verdict::Fail(format!("unlink failed (read-only directory {:?}) and the file was then rewritten IN PLACE: hard-linked twin {:?} changed; exit {:?}", r.dir, String::from_utf8_lossy(p), r.obs.out.exit));
                         }
                     }
                 }
-                if obs.out.exit == Exit::Code(0) {
-                    return Verdict::Fail(format!("file {:?} could not be replaced (directory {:?} is read-only for the user) but the push exits 0", victim, dir));
+                if r.obs.out.exit == Exit::Code(0) {
+                    return Verdict::Fail(format!("file {:?} could not be replaced or removed (directory {:?} is read-only for the user) but the push exits 0", r.victim, r.dir));
                 }
-                if let Some(c) = crash_or_timeout(&obs.out.exit) {
+                if let Some(c) = crash_or_timeout(&r.obs.out.exit) {
                     return Verdict::Fail(format!("push crashed in the read-only directory phase: {}", c));
                 }
             }
         }
         Verdict::Pass
     }
+}
+
+pub struct RoPhase {
+    pub obs: Observed,
+    pub twin_before: Snapshot,
+    pub twin_after: Snapshot,
+    pub victim: String,
+    pub dir: String,
+}
+
+/// Push as an unprivileged user (uid 65534 owns the whole workspace) with the directory of one file
+/// that the run has to replace or remove made read-only: unlink fails with EACCES while the file
+/// itself stays writable.
+pub fn readonly_dir_phase(ws: &WsCase, opts: &PushOpts, cx: &mut CaseCtx) -> Option<RoPhase> {
+    let exp = expectation(ws, opts, 0);
+    if exp.hard_error {
+        return None;
+    }
+    let end = &ws.states[exp.applied];
+    let victim: String = ws
+        .spec
+        .tree
+        .files
+        .iter()
+        .filter(|(p, f)| p.contains('/') && !p.ends_with(".rej") && f.mode & 0o200 != 0 && end.files.get(*p).map_or(true, |g| g.data != f.data))
+        .map(|(p, _)| p.clone())
+        .next()?;
+    let dir = victim[..victim.rfind('/').unwrap()].to_string();
+    let base = cx.env.fresh_dir("rou-");
+    let root = base.join("work");
+    let twin = base.join("twin");
+    ws.spec.materialise(&root);
+    ws::link_tree(&root, &twin);
+    ws::chown_tree(&base, 65534);
+    let _ = std::fs::set_permissions(&base, std::os::unix::fs::PermissionsExt::from_mode(0o777));
+    let dpath = root.join(&dir);
+    let _ = std::fs::set_permissions(&dpath, std::os::unix::fs::PermissionsExt::from_mode(0o555));
+    let twin_before = ws::snapshot(&twin);
+    let obs = push(cx, &root, opts, &ws::RunOpts { uid: Some(65534), ..Default::default() });
+    let twin_after = ws::snapshot(&twin);
+    let _ = std::fs::set_permissions(&dpath, std::os::unix::fs::PermissionsExt::from_mode(0o755));
+    ws::rm_rf(&base);
+    Some(RoPhase { obs, twin_before, twin_after, victim, dir })
 }
